@@ -6,7 +6,9 @@ use crate::engine::{finish, guarded, RunInfo, Stats, Tier};
 use crate::props::c12::{base_net, project, tagq};
 use crate::world::app::{AppSpec, Scratch};
 use kdam::Bar;
-use routee_compass::app::compass::compass_app::{run_batch_with_responses, run_batch_without_responses, CompassApp};
+use routee_compass::app::compass::compass_app::{
+    run_batch_with_responses, run_batch_without_responses, CompassApp,
+};
 use routee_compass::app::compass::response::response_output_policy::ResponseOutputPolicy;
 use routee_compass::app::compass::response::response_sink::ResponseSink;
 use routee_compass_core::util::verif_sync::Mutex as VMutex;
@@ -33,9 +35,9 @@ pub fn query_alphabet() -> Vec<Value> {
     vec![
         json!({"origin_vertex": 0, "destination_vertex": 4}),
         json!({"origin_vertex": 2, "destination_vertex": 3, "padding": "x".repeat(300)}),
-        json!({"origin_vertex": 4, "destination_vertex": 0}),            // unreachable: error response
+        json!({"origin_vertex": 4, "destination_vertex": 0}), // unreachable: error response
         json!({"origin_vertex": 1, "destination_vertex": 4, "padding": [1, 2, 3, {"deep": "y".repeat(40)}]}),
-        json!({"origin_vertex": 0, "destination_vertex": 99}),           // out of range: error response
+        json!({"origin_vertex": 0, "destination_vertex": 99}), // out of range: error response
         json!({"origin_vertex": 0, "destination_vertex": 3}),
     ]
 }
@@ -60,7 +62,9 @@ fn ref_cell(m: &Value, r: &Value) -> Result<Value, String> {
             }
             Ok(cur.clone())
         }
-        Value::Object(o) if o.contains_key("optional") => Ok(ref_cell(&o["optional"], r).unwrap_or(Value::Null)),
+        Value::Object(o) if o.contains_key("optional") => {
+            Ok(ref_cell(&o["optional"], r).unwrap_or(Value::Null))
+        }
         Value::Object(o) if o.contains_key("sum") => {
             let mut s = 0.0;
             for x in o["sum"].as_array().unwrap() {
@@ -88,7 +92,15 @@ pub fn ref_header_keys(format: &Value) -> Vec<String> {
 }
 pub fn ref_csv_row(format: &Value, r: &Value) -> String {
     let mapping = format["mapping"].as_object().unwrap();
-    ref_header_keys(format).iter().map(|k| ref_cell(&mapping[k], r).map(|c| c.to_string()).unwrap_or_default()).collect::<Vec<_>>().join(",")
+    ref_header_keys(format)
+        .iter()
+        .map(|k| {
+            ref_cell(&mapping[k], r)
+                .map(|c| c.to_string())
+                .unwrap_or_default()
+        })
+        .collect::<Vec<_>>()
+        .join(",")
 }
 pub fn ref_csv_header(format: &Value) -> String {
     ref_header_keys(format).join(",")
@@ -107,12 +119,23 @@ pub fn fixture() -> Result<Fixture, String> {
 pub fn fixture_spec(spec: &AppSpec) -> Result<Fixture, String> {
     let scratch = Scratch::new("c19");
     let app = spec.build(&scratch.path.join("app"))?;
-    Ok(Fixture { app: Arc::new(app), scratch, spec: spec.clone() })
+    Ok(Fixture {
+        app: Arc::new(app),
+        scratch,
+        spec: spec.clone(),
+    })
 }
 
 pub fn policy(path: &str, csv: bool, flush: i64) -> Result<ResponseOutputPolicy, String> {
-    let format = if csv { csv_format() } else { json!({"type": "json", "newline_delimited": true}) };
-    serde_json::from_value(json!({"type": "file", "filename": path, "format": format, "file_flush_rate": flush})).map_err(|e| e.to_string())
+    let format = if csv {
+        csv_format()
+    } else {
+        json!({"type": "json", "newline_delimited": true})
+    };
+    serde_json::from_value(
+        json!({"type": "file", "filename": path, "format": format, "file_flush_rate": flush}),
+    )
+    .map_err(|e| e.to_string())
 }
 
 /// what each query returns when run alone (projected), keyed by qid
@@ -138,32 +161,52 @@ pub struct Outcome {
 }
 
 /// one execution of a scenario under a choice prefix
-pub fn run_scenario(ex: &Explorer, fx: &Fixture, sc: &Scenario, prefix: &[usize], expect: Option<&[String]>, shared_cache_labels: bool) -> Result<Outcome, String> {
+pub fn run_scenario(
+    ex: &Explorer,
+    fx: &Fixture,
+    sc: &Scenario,
+    prefix: &[usize],
+    expect: Option<&[String]>,
+    shared_cache_labels: bool,
+) -> Result<Outcome, String> {
     let _ = shared_cache_labels;
     let path = fx.scratch.path.join(format!("out_{}.txt", sc.name));
     let _ = std::fs::remove_file(&path);
     let path2 = fx.scratch.path.join(format!("out2_{}.txt", sc.name));
     let _ = std::fs::remove_file(&path2);
     let pol = if sc.combined {
-        let a = serde_json::to_value(policy(path.to_str().unwrap(), false, sc.flush_rate)?).map_err(|e| e.to_string())?;
-        let b = serde_json::to_value(policy(path2.to_str().unwrap(), true, sc.flush_rate)?).map_err(|e| e.to_string())?;
-        serde_json::from_value(json!({"type": "combined", "policies": [a, b]})).map_err(|e| e.to_string())?
+        let a = serde_json::to_value(policy(path.to_str().unwrap(), false, sc.flush_rate)?)
+            .map_err(|e| e.to_string())?;
+        let b = serde_json::to_value(policy(path2.to_str().unwrap(), true, sc.flush_rate)?)
+            .map_err(|e| e.to_string())?;
+        serde_json::from_value(json!({"type": "combined", "policies": [a, b]}))
+            .map_err(|e| e.to_string())?
     } else {
         policy(path.to_str().unwrap(), sc.csv, sc.flush_rate)?
     };
     let sink = Arc::new(pol.build().map_err(|e| e.to_string())?);
     let n_total: usize = sc.batches.iter().map(|b| b.len()).sum();
-    let bar = Bar::builder().total(n_total).disable(true).build().map_err(|e| e.to_string())?;
+    let bar = Bar::builder()
+        .total(n_total)
+        .disable(true)
+        .build()
+        .map_err(|e| e.to_string())?;
     let pb = Arc::new(VMutex::new(bar));
     // names of the shared primitives for labels: (file lock, counter lock, file) per file sink
     fn sink_ids(s: &ResponseSink, out: &mut Vec<(usize, usize, usize)>) -> Result<(), String> {
         match s {
-            ResponseSink::File { file, iterations, .. } => {
+            ResponseSink::File {
+                file, iterations, ..
+            } => {
                 let fid = {
                     let g = file.lock().map_err(|_| "poisoned")?;
                     (&*g) as *const _ as *const u8 as usize
                 };
-                out.push((Arc::as_ptr(file) as *const u8 as usize, Arc::as_ptr(iterations) as *const u8 as usize, fid));
+                out.push((
+                    Arc::as_ptr(file) as *const u8 as usize,
+                    Arc::as_ptr(iterations) as *const u8 as usize,
+                    fid,
+                ));
             }
             ResponseSink::Combined(v) => {
                 for x in v.iter() {
@@ -180,7 +223,11 @@ pub fn run_scenario(ex: &Explorer, fx: &Fixture, sc: &Scenario, prefix: &[usize]
     let label = move |e: &Ev| -> String {
         let name = |id: usize| {
             for (i, (fl, cl, f)) in ids.iter().enumerate() {
-                let sfx = if i == 0 { String::new() } else { format!("#{}", i) };
+                let sfx = if i == 0 {
+                    String::new()
+                } else {
+                    format!("#{}", i)
+                };
                 if id == *fl {
                     return format!("file_lock{}", sfx);
                 } else if id == *cl {
@@ -203,7 +250,11 @@ pub fn run_scenario(ex: &Explorer, fx: &Fixture, sc: &Scenario, prefix: &[usize]
         }
     };
     let mut tasks: Vec<Task> = vec![];
-    let the_app = if sc.fresh_app { Arc::new(fx.spec.build(&fx.scratch.path.join("fresh_app"))?) } else { fx.app.clone() };
+    let the_app = if sc.fresh_app {
+        Arc::new(fx.spec.build(&fx.scratch.path.join("fresh_app"))?)
+    } else {
+        fx.app.clone()
+    };
     for b in sc.batches.iter() {
         let app = the_app.clone();
         let sink = sink.clone();
@@ -214,9 +265,23 @@ pub fn run_scenario(ex: &Explorer, fx: &Fixture, sc: &Scenario, prefix: &[usize]
             let batch: Vec<&Value> = queries.iter().collect();
             let batches = vec![batch];
             let r = if keep {
-                run_batch_with_responses(&batches, &app.search_orientation, &app.output_plugins, &app.search_app, &sink, pb)
+                run_batch_with_responses(
+                    &batches,
+                    &app.search_orientation,
+                    &app.output_plugins,
+                    &app.search_app,
+                    &sink,
+                    pb,
+                )
             } else {
-                run_batch_without_responses(&batches, &app.search_orientation, &app.output_plugins, &app.search_app, &sink, pb)
+                run_batch_without_responses(
+                    &batches,
+                    &app.search_orientation,
+                    &app.output_plugins,
+                    &app.search_app,
+                    &sink,
+                    pb,
+                )
             };
             match r {
                 Ok(it) => Value::Array(it.collect()),
@@ -231,7 +296,11 @@ pub fn run_scenario(ex: &Explorer, fx: &Fixture, sc: &Scenario, prefix: &[usize]
 }
 
 /// judges one execution; returns failed clauses and the order in which the qids appear in the file
-pub fn judge(sc: &Scenario, alone: &BTreeMap<String, Value>, out: &Outcome) -> (Vec<(&'static str, String)>, String) {
+pub fn judge(
+    sc: &Scenario,
+    alone: &BTreeMap<String, Value>,
+    out: &Outcome,
+) -> (Vec<(&'static str, String)>, String) {
     let mut bad: Vec<(&'static str, String)> = vec![];
     if let Some(d) = &out.exec.deadlock {
         bad.push(("no_deadlock", d.clone()));
@@ -244,15 +313,37 @@ pub fn judge(sc: &Scenario, alone: &BTreeMap<String, Value>, out: &Outcome) -> (
             Some(Value::Array(a)) => {
                 if sc.keep_responses {
                     // C06: each task's vector equals the alone-responses of its batch, in order
-                    let want: Vec<Value> = sc.batches[ti].iter().map(|q| alone.get(q["qid"].as_str().unwrap_or("")).cloned().unwrap_or(Value::Null)).collect();
+                    let want: Vec<Value> = sc.batches[ti]
+                        .iter()
+                        .map(|q| {
+                            alone
+                                .get(q["qid"].as_str().unwrap_or(""))
+                                .cloned()
+                                .unwrap_or(Value::Null)
+                        })
+                        .collect();
                     let got: Vec<Value> = a.iter().map(project).collect();
                     // sums over hash-ordered maps may differ in the last bit: compare at 12 significant digits
-                    if got.iter().map(crate::engine::canon_json).collect::<Vec<_>>() != want.iter().map(crate::engine::canon_json).collect::<Vec<_>>() {
-                        bad.push(("task_returns_alone_responses_in_order", format!("task {} returned {:?} want {:?}", ti, got, want)));
+                    if got
+                        .iter()
+                        .map(crate::engine::canon_json)
+                        .collect::<Vec<_>>()
+                        != want
+                            .iter()
+                            .map(crate::engine::canon_json)
+                            .collect::<Vec<_>>()
+                    {
+                        bad.push((
+                            "task_returns_alone_responses_in_order",
+                            format!("task {} returned {:?} want {:?}", ti, got, want),
+                        ));
                     }
                     returned.extend(a.iter().cloned());
                 } else if !a.is_empty() {
-                    bad.push(("discard_policy_returns_nothing", format!("task {} returned {} responses", ti, a.len())));
+                    bad.push((
+                        "discard_policy_returns_nothing",
+                        format!("task {} returned {} responses", ti, a.len()),
+                    ));
                 }
             }
             other => bad.push(("task_completes", format!("task {}: {:?}", ti, other))),
@@ -269,55 +360,111 @@ pub fn judge(sc: &Scenario, alone: &BTreeMap<String, Value>, out: &Outcome) -> (
 }
 
 /// the file oracle for one output file in JSON-lines or CSV form; returns the order of qids in the file
-fn judge_file(sc: &Scenario, csv: bool, alone: &BTreeMap<String, Value>, file: &str, returned: &[Value], bad: &mut Vec<(&'static str, String)>) -> String {
+fn judge_file(
+    sc: &Scenario,
+    csv: bool,
+    alone: &BTreeMap<String, Value>,
+    file: &str,
+    returned: &[Value],
+    bad: &mut Vec<(&'static str, String)>,
+) -> String {
     let n_expected: usize = sc.batches.iter().map(|b| b.len()).sum();
     let lines: Vec<&str> = file.split('\n').collect();
     // a complete file ends with a newline: the last split element is empty
     if lines.last().map_or(false, |l| !l.is_empty()) {
-        bad.push(("last_record_is_terminated", format!("file ends with {:?}", lines.last())));
+        bad.push((
+            "last_record_is_terminated",
+            format!("file ends with {:?}", lines.last()),
+        ));
     }
     let lines: Vec<&str> = lines.into_iter().filter(|l| !l.is_empty()).collect();
     let mut order = vec![];
     if csv {
         let fmt = csv_format();
         if lines.first().copied() != Some(ref_csv_header(&fmt).as_str()) {
-            bad.push(("single_header_first", format!("first line {:?}", lines.first())));
+            bad.push((
+                "single_header_first",
+                format!("first line {:?}", lines.first()),
+            ));
         }
         let rows = &lines[1.min(lines.len())..];
         if rows.len() != n_expected {
-            bad.push(("one_record_per_response", format!("{} rows for {} responses", rows.len(), n_expected)));
+            bad.push((
+                "one_record_per_response",
+                format!("{} rows for {} responses", rows.len(), n_expected),
+            ));
         }
         // expected rows: from the responses returned (keep) or from the alone responses re-rendered (discard: compare on qid column and shape)
-        let mut want: Vec<String> = if sc.keep_responses { returned.iter().map(|r| ref_csv_row(&fmt, r)).collect() } else { vec![] };
+        let mut want: Vec<String> = if sc.keep_responses {
+            returned.iter().map(|r| ref_csv_row(&fmt, r)).collect()
+        } else {
+            vec![]
+        };
         let mut got: Vec<String> = rows.iter().map(|s| s.to_string()).collect();
         for r in rows {
-            order.push(r.rsplit(',').next().unwrap_or("").trim_matches('"').to_string());
+            order.push(
+                r.rsplit(',')
+                    .next()
+                    .unwrap_or("")
+                    .trim_matches('"')
+                    .to_string(),
+            );
         }
         if sc.keep_responses {
             want.sort();
             got.sort();
             if want != got {
-                bad.push(("rows_follow_mapping_in_header_order", format!("rows {:?} want {:?}", got, want)));
+                bad.push((
+                    "rows_follow_mapping_in_header_order",
+                    format!("rows {:?} want {:?}", got, want),
+                ));
             }
         } else {
             let mut ids: Vec<String> = order.clone();
             ids.sort();
-            let mut wids: Vec<String> = sc.batches.iter().flatten().map(|q| q["qid"].as_str().unwrap_or("").to_string()).collect();
+            let mut wids: Vec<String> = sc
+                .batches
+                .iter()
+                .flatten()
+                .map(|q| q["qid"].as_str().unwrap_or("").to_string())
+                .collect();
             wids.sort();
             if ids != wids {
-                bad.push(("one_record_per_response", format!("qids in file {:?} want {:?}", ids, wids)));
+                bad.push((
+                    "one_record_per_response",
+                    format!("qids in file {:?} want {:?}", ids, wids),
+                ));
             }
             let ncols = ref_csv_header(&fmt).split(',').count();
             // error texts may contain commas inside the quoted string; count columns on rows without an error only
             for r in rows {
                 if r.contains(",null,") && r.split(',').count() != ncols {
-                    bad.push(("rows_follow_mapping_in_header_order", format!("row {:?} has {} columns, header has {}", r, r.split(',').count(), ncols)));
+                    bad.push((
+                        "rows_follow_mapping_in_header_order",
+                        format!(
+                            "row {:?} has {} columns, header has {}",
+                            r,
+                            r.split(',').count(),
+                            ncols
+                        ),
+                    ));
                 }
             }
         }
     } else {
         if lines.len() != n_expected {
-            bad.push(("one_record_per_response", format!("{} lines for {} responses: {:?}", lines.len(), n_expected, lines.iter().map(|l| l.chars().take(60).collect::<String>()).collect::<Vec<_>>())));
+            bad.push((
+                "one_record_per_response",
+                format!(
+                    "{} lines for {} responses: {:?}",
+                    lines.len(),
+                    n_expected,
+                    lines
+                        .iter()
+                        .map(|l| l.chars().take(60).collect::<String>())
+                        .collect::<Vec<_>>()
+                ),
+            ));
         }
         let mut parsed: Vec<Value> = vec![];
         for l in lines.iter() {
@@ -326,7 +473,10 @@ fn judge_file(sc: &Scenario, csv: bool, alone: &BTreeMap<String, Value>, file: &
                     order.push(v["request"]["qid"].as_str().unwrap_or("?").to_string());
                     parsed.push(v);
                 }
-                Err(e) => bad.push(("every_record_parses", format!("{}: {:?}", e, l.chars().take(120).collect::<String>()))),
+                Err(e) => bad.push((
+                    "every_record_parses",
+                    format!("{}: {:?}", e, l.chars().take(120).collect::<String>()),
+                )),
             }
         }
         let canon = |v: &Vec<Value>| {
@@ -336,12 +486,36 @@ fn judge_file(sc: &Scenario, csv: bool, alone: &BTreeMap<String, Value>, file: &
         };
         if sc.keep_responses {
             if canon(&parsed) != canon(&returned.to_vec()) {
-                bad.push(("records_are_the_responses_produced", format!("file {:?} returned {:?}", canon(&parsed.iter().map(project).collect()), canon(&returned.iter().map(project).collect::<Vec<_>>()))));
+                bad.push((
+                    "records_are_the_responses_produced",
+                    format!(
+                        "file {:?} returned {:?}",
+                        canon(&parsed.iter().map(project).collect()),
+                        canon(&returned.iter().map(project).collect::<Vec<_>>())
+                    ),
+                ));
             }
         } else {
-            let want: Vec<Value> = sc.batches.iter().flatten().map(|q| alone.get(q["qid"].as_str().unwrap_or("")).cloned().unwrap_or(Value::Null)).collect();
+            let want: Vec<Value> = sc
+                .batches
+                .iter()
+                .flatten()
+                .map(|q| {
+                    alone
+                        .get(q["qid"].as_str().unwrap_or(""))
+                        .cloned()
+                        .unwrap_or(Value::Null)
+                })
+                .collect();
             if canon(&parsed.iter().map(project).collect()) != canon(&want) {
-                bad.push(("records_are_the_responses_produced", format!("file {:?} want {:?}", canon(&parsed.iter().map(project).collect()), canon(&want))));
+                bad.push((
+                    "records_are_the_responses_produced",
+                    format!(
+                        "file {:?} want {:?}",
+                        canon(&parsed.iter().map(project).collect()),
+                        canon(&want)
+                    ),
+                ));
             }
         }
     }
@@ -353,19 +527,85 @@ pub fn scenarios(tier: Tier) -> Vec<(Scenario, Option<usize>)> {
     let q = |i: usize, id: &str| tagq(&qa[i], id);
     let mut v = vec![];
     // two tasks x two queries: explored completely (no preemption bound)
-    for (csv, flush, keep) in [(false, 1, true), (true, 2, true), (false, 2, false), (true, 1, false)] {
+    for (csv, flush, keep) in [
+        (false, 1, true),
+        (true, 2, true),
+        (false, 2, false),
+        (true, 1, false),
+    ] {
         v.push((
-            Scenario { name: format!("2x2_{}_{}_{}", if csv { "csv" } else { "jsonl" }, flush, if keep { "keep" } else { "discard" }), batches: vec![vec![q(0, "a0"), q(2, "a1")], vec![q(1, "b0"), q(4, "b1")]], csv, flush_rate: flush, keep_responses: keep, fresh_app: false, combined: false },
+            Scenario {
+                name: format!(
+                    "2x2_{}_{}_{}",
+                    if csv { "csv" } else { "jsonl" },
+                    flush,
+                    if keep { "keep" } else { "discard" }
+                ),
+                batches: vec![vec![q(0, "a0"), q(2, "a1")], vec![q(1, "b0"), q(4, "b1")]],
+                csv,
+                flush_rate: flush,
+                keep_responses: keep,
+                fresh_app: false,
+                combined: false,
+            },
             None,
         ));
     }
     // one Combined sink writing a JSON-lines file and a CSV file: each response takes both pairs of locks one after the other
-    v.push((Scenario { name: "2x2_combined_1_keep".into(), batches: vec![vec![q(0, "a0"), q(2, "a1")], vec![q(1, "b0"), q(4, "b1")]], csv: false, flush_rate: 1, keep_responses: true, fresh_app: false, combined: true }, Some(tier.pick(3, 5))));
-    v.push((Scenario { name: "2x1_combined_2_discard".into(), batches: vec![vec![q(0, "a0")], vec![q(1, "b0")]], csv: false, flush_rate: 2, keep_responses: false, fresh_app: false, combined: true }, None));
+    v.push((
+        Scenario {
+            name: "2x2_combined_1_keep".into(),
+            batches: vec![vec![q(0, "a0"), q(2, "a1")], vec![q(1, "b0"), q(4, "b1")]],
+            csv: false,
+            flush_rate: 1,
+            keep_responses: true,
+            fresh_app: false,
+            combined: true,
+        },
+        Some(tier.pick(3, 5)),
+    ));
+    v.push((
+        Scenario {
+            name: "2x1_combined_2_discard".into(),
+            batches: vec![vec![q(0, "a0")], vec![q(1, "b0")]],
+            csv: false,
+            flush_rate: 2,
+            keep_responses: false,
+            fresh_app: false,
+            combined: true,
+        },
+        None,
+    ));
     // three tasks: preemption bounded
     let b3 = tier.pick(2, 3);
-    v.push((Scenario { name: "3x1_jsonl".into(), batches: vec![vec![q(0, "a0")], vec![q(1, "b0")], vec![q(2, "c0")]], csv: false, flush_rate: 1, keep_responses: true, fresh_app: false, combined: false }, Some(tier.pick(4, 6))));
-    v.push((Scenario { name: "3x2_csv".into(), batches: vec![vec![q(0, "a0"), q(3, "a1")], vec![q(1, "b0"), q(2, "b1")], vec![q(5, "c0"), q(4, "c1")]], csv: true, flush_rate: 2, keep_responses: true, fresh_app: false, combined: false }, Some(b3)));
+    v.push((
+        Scenario {
+            name: "3x1_jsonl".into(),
+            batches: vec![vec![q(0, "a0")], vec![q(1, "b0")], vec![q(2, "c0")]],
+            csv: false,
+            flush_rate: 1,
+            keep_responses: true,
+            fresh_app: false,
+            combined: false,
+        },
+        Some(tier.pick(4, 6)),
+    ));
+    v.push((
+        Scenario {
+            name: "3x2_csv".into(),
+            batches: vec![
+                vec![q(0, "a0"), q(3, "a1")],
+                vec![q(1, "b0"), q(2, "b1")],
+                vec![q(5, "c0"), q(4, "c1")],
+            ],
+            csv: true,
+            flush_rate: 2,
+            keep_responses: true,
+            fresh_app: false,
+            combined: false,
+        },
+        Some(b3),
+    ));
     if tier == Tier::Thorough {
         // the whole matrix of small shapes under preemption bound 2: tasks x queries per task x format x flush rate x persistence
         // (the hand-picked scenarios above go deeper on a few of them)
@@ -374,9 +614,35 @@ pub fn scenarios(tier: Tier) -> Vec<(Scenario, Option<usize>)> {
                 for fmt in ["jsonl", "csv", "combined"] {
                     for flush in [1i64, 2, 3] {
                         for keep in [true, false] {
-                            let batches: Vec<Vec<Value>> = (0..tasks).map(|t| (0..per_task).map(|k| q((t * 2 + k * 3) % 6, &format!("{}{}", ["a", "b", "c"][t], k))).collect()).collect();
+                            let batches: Vec<Vec<Value>> = (0..tasks)
+                                .map(|t| {
+                                    (0..per_task)
+                                        .map(|k| {
+                                            q(
+                                                (t * 2 + k * 3) % 6,
+                                                &format!("{}{}", ["a", "b", "c"][t], k),
+                                            )
+                                        })
+                                        .collect()
+                                })
+                                .collect();
                             v.push((
-                                Scenario { name: format!("gen_{}x{}_{}_{}_{}", tasks, per_task, fmt, flush, if keep { "keep" } else { "discard" }), batches, csv: fmt == "csv", flush_rate: flush, keep_responses: keep, fresh_app: false, combined: fmt == "combined" },
+                                Scenario {
+                                    name: format!(
+                                        "gen_{}x{}_{}_{}_{}",
+                                        tasks,
+                                        per_task,
+                                        fmt,
+                                        flush,
+                                        if keep { "keep" } else { "discard" }
+                                    ),
+                                    batches,
+                                    csv: fmt == "csv",
+                                    flush_rate: flush,
+                                    keep_responses: keep,
+                                    fresh_app: false,
+                                    combined: fmt == "combined",
+                                },
                                 Some(2),
                             ));
                         }
@@ -384,14 +650,50 @@ pub fn scenarios(tier: Tier) -> Vec<(Scenario, Option<usize>)> {
                 }
             }
         }
-        v.push((Scenario { name: "3x2_jsonl_discard".into(), batches: vec![vec![q(0, "a0"), q(3, "a1")], vec![q(1, "b0"), q(2, "b1")], vec![q(5, "c0"), q(4, "c1")]], csv: false, flush_rate: 3, keep_responses: false, fresh_app: false, combined: false }, Some(3)));
-        v.push((Scenario { name: "2x3_jsonl".into(), batches: vec![vec![q(0, "a0"), q(2, "a1"), q(3, "a2")], vec![q(1, "b0"), q(4, "b1"), q(5, "b2")]], csv: false, flush_rate: 2, keep_responses: true, fresh_app: false, combined: false }, Some(4)));
+        v.push((
+            Scenario {
+                name: "3x2_jsonl_discard".into(),
+                batches: vec![
+                    vec![q(0, "a0"), q(3, "a1")],
+                    vec![q(1, "b0"), q(2, "b1")],
+                    vec![q(5, "c0"), q(4, "c1")],
+                ],
+                csv: false,
+                flush_rate: 3,
+                keep_responses: false,
+                fresh_app: false,
+                combined: false,
+            },
+            Some(3),
+        ));
+        v.push((
+            Scenario {
+                name: "2x3_jsonl".into(),
+                batches: vec![
+                    vec![q(0, "a0"), q(2, "a1"), q(3, "a2")],
+                    vec![q(1, "b0"), q(4, "b1"), q(5, "b2")],
+                ],
+                csv: false,
+                flush_rate: 2,
+                keep_responses: true,
+                fresh_app: false,
+                combined: false,
+            },
+            Some(4),
+        ));
     }
     v
 }
 
 /// explores one scenario; returns (distinct file orders, schedules, per-bound counts)
-pub fn explore_scenario(fx: &Fixture, sc: &Scenario, bound: Option<usize>, max_schedules: u64, property: &str, st: &mut Stats) -> Result<(usize, u64), String> {
+pub fn explore_scenario(
+    fx: &Fixture,
+    sc: &Scenario,
+    bound: Option<usize>,
+    max_schedules: u64,
+    property: &str,
+    st: &mut Stats,
+) -> Result<(usize, u64), String> {
     let al = alone(&fx.app, &sc.batches);
     let mut ex = Explorer::new(sc.batches.len());
     let mut orders: std::collections::BTreeSet<String> = std::collections::BTreeSet::new();
@@ -410,7 +712,15 @@ pub fn explore_scenario(fx: &Fixture, sc: &Scenario, bound: Option<usize>, max_s
                     let mut e = o.exec.clone();
                     // stash the verdict in the execution through the results vector is awkward; judge again in check
                     e.results = o.exec.results.clone();
-                    LAST.with(|l| *l.borrow_mut() = Some((bad.iter().map(|(c, d)| (c.to_string(), d.clone())).collect(), order, o.file)));
+                    LAST.with(|l| {
+                        *l.borrow_mut() = Some((
+                            bad.iter()
+                                .map(|(c, d)| (c.to_string(), d.clone()))
+                                .collect(),
+                            order,
+                            o.file,
+                        ))
+                    });
                     if e.deadlock.is_some() {
                         need_new_explorer = true;
                     }
@@ -418,7 +728,10 @@ pub fn explore_scenario(fx: &Fixture, sc: &Scenario, bound: Option<usize>, max_s
                 }
                 Err(e) => {
                     machinery = Some(e);
-                    Execution { diverged: Some("scenario setup failed".into()), ..Default::default() }
+                    Execution {
+                        diverged: Some("scenario setup failed".into()),
+                        ..Default::default()
+                    }
                 }
             }
         };
@@ -429,7 +742,11 @@ pub fn explore_scenario(fx: &Fixture, sc: &Scenario, bound: Option<usize>, max_s
             st.states += 1;
             let (bad, order, _file) = LAST.with(|l| l.borrow_mut().take()).unwrap_or_default();
             if orders.is_empty() && std::env::var("VERIF_DEBUG_LABELS").is_ok() {
-                eprintln!("{}: {:?}", sc.name, x.points.iter().map(|p| p.label.clone()).collect::<Vec<_>>());
+                eprintln!(
+                    "{}: {:?}",
+                    sc.name,
+                    x.points.iter().map(|p| p.label.clone()).collect::<Vec<_>>()
+                );
             }
             if x.preemptions() > 0 {
                 st.nontrivial += 1;
@@ -441,7 +758,10 @@ pub fn explore_scenario(fx: &Fixture, sc: &Scenario, bound: Option<usize>, max_s
             }
             // clauses belonging to the two properties served by this engine
             for (clause, detail) in bad {
-                let c06 = clause == "task_returns_alone_responses_in_order" || clause == "no_deadlock" || clause == "task_completes" || clause == "discard_policy_returns_nothing";
+                let c06 = clause == "task_returns_alone_responses_in_order"
+                    || clause == "no_deadlock"
+                    || clause == "task_completes"
+                    || clause == "discard_policy_returns_nothing";
                 if (property == "C06") == c06 || clause == "no_deadlock" {
                     let choices = x.choices();
                     let labels: Vec<String> = x.points.iter().map(|p| p.label.clone()).collect();
@@ -451,7 +771,10 @@ pub fn explore_scenario(fx: &Fixture, sc: &Scenario, bound: Option<usize>, max_s
             // a deadlocked execution leaves its worker threads stuck for good (they are abandoned, a fresh set of pools
             // is created): one deadlock per scenario is reported and the exploration of that scenario stops there
             if x.deadlock.is_some() {
-                st.notes.insert(format!("{}: exploration stopped at the first deadlock", sc.name));
+                st.notes.insert(format!(
+                    "{}: exploration stopped at the first deadlock",
+                    sc.name
+                ));
                 return false;
             }
             true
@@ -462,7 +785,10 @@ pub fn explore_scenario(fx: &Fixture, sc: &Scenario, bound: Option<usize>, max_s
         return Err(m);
     }
     if let Some(d) = diverged {
-        return Err(format!("divergence while replaying a prefix in {}: {}", sc.name, d));
+        return Err(format!(
+            "divergence while replaying a prefix in {}: {}",
+            sc.name, d
+        ));
     }
     st.capped |= stats.capped;
     st.notes.insert(format!("{}: bound {:?}: {} schedules {:?} per preemption count, max {} choice points, {} distinct file orders{}", sc.name, bound, stats.schedules, stats.schedules_per_bound, stats.max_points, orders.len(), if stats.capped { " (schedule cap hit)" } else { "" }));
@@ -486,17 +812,38 @@ fn histories(fx: &Fixture, tier: Tier, st: &mut Stats, only: Option<&Value>) {
             f["sorted"] = json!(true);
             f
         }),
-        ("csv_missing_path", json!({"type": "csv", "sorted": false, "mapping": {"qid": "request.qid", "dist": "route.traversal_summary.distance", "nope": "does.not.exist"}})),
+        (
+            "csv_missing_path",
+            json!({"type": "csv", "sorted": false, "mapping": {"qid": "request.qid", "dist": "route.traversal_summary.distance", "nope": "does.not.exist"}}),
+        ),
         // column names whose byte order differs from their case-insensitive order (header and rows are rendered at two sites)
-        ("csv_sorted_mixed_case", json!({"type": "csv", "sorted": true, "mapping": {"qid": "request.qid", "Zone": "request.origin_vertex", "tripId": {"optional": "route.traversal_summary.distance"}, "trip_distance": {"sum": [{"optional": "route_edges"}, {"optional": "iterations"}]}, "n": {"optional": "error"}}})),
-        ("csv_unsorted_mixed_case", json!({"type": "csv", "sorted": false, "mapping": {"Zone": "request.origin_vertex", "qid": "request.qid", "tripId": {"optional": "route.traversal_summary.distance"}, "a_b": {"optional": "error"}}})),
+        (
+            "csv_sorted_mixed_case",
+            json!({"type": "csv", "sorted": true, "mapping": {"qid": "request.qid", "Zone": "request.origin_vertex", "tripId": {"optional": "route.traversal_summary.distance"}, "trip_distance": {"sum": [{"optional": "route_edges"}, {"optional": "iterations"}]}, "n": {"optional": "error"}}}),
+        ),
+        (
+            "csv_unsorted_mixed_case",
+            json!({"type": "csv", "sorted": false, "mapping": {"Zone": "request.origin_vertex", "qid": "request.qid", "tripId": {"optional": "route.traversal_summary.distance"}, "a_b": {"optional": "error"}}}),
+        ),
         // one column: the record of a response for which the column does not resolve is the empty row
-        ("csv_single_column", json!({"type": "csv", "sorted": false, "mapping": {"dist": "route.traversal_summary.distance"}})),
-        ("csv_single_error_column", json!({"type": "csv", "sorted": true, "mapping": {"err": "error"}})),
+        (
+            "csv_single_column",
+            json!({"type": "csv", "sorted": false, "mapping": {"dist": "route.traversal_summary.distance"}}),
+        ),
+        (
+            "csv_single_error_column",
+            json!({"type": "csv", "sorted": true, "mapping": {"err": "error"}}),
+        ),
         // columns that do not resolve ahead (in header order) of a column that reads `error`: a row is the mapping applied to the
         // response as it was produced, whatever the formatter notes about the failing columns afterwards
-        ("csv_failing_columns_before_error_column", json!({"type": "csv", "sorted": false, "mapping": {"err": {"optional": "error"}, "qid": "request.qid", "total": {"sum": ["route.no_such_number"]}, "nope": "does.not.exist"}})),
-        ("csv_failing_columns_before_error_column_sorted", json!({"type": "csv", "sorted": true, "mapping": {"c_err": {"optional": "error"}, "b_qid": "request.qid", "a_missing": "does.not.exist", "a_second": "route.no_such_field"}})),
+        (
+            "csv_failing_columns_before_error_column",
+            json!({"type": "csv", "sorted": false, "mapping": {"err": {"optional": "error"}, "qid": "request.qid", "total": {"sum": ["route.no_such_number"]}, "nope": "does.not.exist"}}),
+        ),
+        (
+            "csv_failing_columns_before_error_column_sorted",
+            json!({"type": "csv", "sorted": true, "mapping": {"c_err": {"optional": "error"}, "b_qid": "request.qid", "a_missing": "does.not.exist", "a_second": "route.no_such_field"}}),
+        ),
     ];
     // run contents: indices into the query alphabet
     let contents: Vec<Vec<usize>> = vec![vec![0], vec![2], vec![0, 2], vec![1, 4, 3], vec![5, 0]];
@@ -521,8 +868,13 @@ fn histories(fx: &Fixture, tier: Tier, st: &mut Stats, only: Option<&Value>) {
                 }
                 for (si, seq) in seqs.iter().enumerate() {
                     if let Some(o) = only {
-                        let runs = json!(seq.iter().map(|c| contents[*c].clone()).collect::<Vec<_>>());
-                        if o["format"].as_str() != Some(*fname) || o["persistence"].as_str() != Some(persist) || o["parallelism"].as_u64() != Some(par as u64) || o["runs"] != runs {
+                        let runs =
+                            json!(seq.iter().map(|c| contents[*c].clone()).collect::<Vec<_>>());
+                        if o["format"].as_str() != Some(*fname)
+                            || o["persistence"].as_str() != Some(persist)
+                            || o["parallelism"].as_u64() != Some(par as u64)
+                            || o["runs"] != runs
+                        {
                             continue;
                         }
                     }
@@ -535,7 +887,13 @@ fn histories(fx: &Fixture, tier: Tier, st: &mut Stats, only: Option<&Value>) {
                     if seq.len() > 1 {
                         st.nontrivial += 1;
                     }
-                    let path = fx.scratch.path.join(format!("hist_{}_{}_{}_{}.txt", fname, persist.len(), par, si));
+                    let path = fx.scratch.path.join(format!(
+                        "hist_{}_{}_{}_{}.txt",
+                        fname,
+                        persist.len(),
+                        par,
+                        si
+                    ));
                     let _ = std::fs::remove_file(&path);
                     let cfg = json!({"parallelism": par, "response_persistence_policy": persist, "response_output_policy": {"type": "file", "filename": path.to_str().unwrap(), "format": format, "file_flush_rate": 1}});
                     let comp = format!("append_histories.{}", fname);
@@ -546,14 +904,28 @@ fn histories(fx: &Fixture, tier: Tier, st: &mut Stats, only: Option<&Value>) {
                     let mut ok = true;
                     for (ri, c) in seq.iter().enumerate() {
                         st.transitions += 1;
-                        let queries: Vec<Value> = contents[*c].iter().enumerate().map(|(k, qi)| tagq(&qa[*qi], &format!("r{}q{}", ri, k))).collect();
+                        let queries: Vec<Value> = contents[*c]
+                            .iter()
+                            .enumerate()
+                            .map(|(k, qi)| tagq(&qa[*qi], &format!("r{}q{}", ri, k)))
+                            .collect();
                         for q in queries.iter() {
                             expected_ids.push(q["qid"].as_str().unwrap().to_string());
                         }
-                        let alone_r: Vec<Value> = queries.iter().map(|q| app.run(vec![q.clone()], None).ok().and_then(|r| r.first().map(project)).unwrap_or(Value::Null)).collect();
+                        let alone_r: Vec<Value> = queries
+                            .iter()
+                            .map(|q| {
+                                app.run(vec![q.clone()], None)
+                                    .ok()
+                                    .and_then(|r| r.first().map(project))
+                                    .unwrap_or(Value::Null)
+                            })
+                            .collect();
                         all_alone.extend(alone_r.iter().cloned());
                         let (a2, q2, c2) = (fx.app.clone(), queries.clone(), cfg.clone());
-                        let answer = match crate::engine::with_deadline(60, move || guarded(|| a2.run(q2, Some(&c2)).map_err(|e| e.to_string()))) {
+                        let answer = match crate::engine::with_deadline(60, move || {
+                            guarded(|| a2.run(q2, Some(&c2)).map_err(|e| e.to_string()))
+                        }) {
                             Some(a) => a,
                             None => {
                                 st.violation(&comp, "returns_in_bounded_time", seq.len() as u64, || "CompassApp::run did not return within 60 s (worker pool stuck); the rest of this run is skipped".to_string(), case);
@@ -562,12 +934,24 @@ fn histories(fx: &Fixture, tier: Tier, st: &mut Stats, only: Option<&Value>) {
                         };
                         match answer {
                             Err(p) => {
-                                st.violation(&comp, "no_panic", seq.len() as u64, || p.clone(), case);
+                                st.violation(
+                                    &comp,
+                                    "no_panic",
+                                    seq.len() as u64,
+                                    || p.clone(),
+                                    case,
+                                );
                                 ok = false;
                                 break;
                             }
                             Ok(Err(e)) => {
-                                st.violation(&comp, "run_succeeds", seq.len() as u64, || e.clone(), case);
+                                st.violation(
+                                    &comp,
+                                    "run_succeeds",
+                                    seq.len() as u64,
+                                    || e.clone(),
+                                    case,
+                                );
                                 ok = false;
                                 break;
                             }
@@ -576,18 +960,41 @@ fn histories(fx: &Fixture, tier: Tier, st: &mut Stats, only: Option<&Value>) {
                                 if persist.starts_with("persist") {
                                     // writing never removes or replaces information in the response handed back
                                     for (q, want) in queries.iter().zip(alone_r.iter()) {
-                                        let got = resp.iter().find(|r| r["request"]["qid"] == q["qid"]).map(project).unwrap_or(Value::Null);
+                                        let got = resp
+                                            .iter()
+                                            .find(|r| r["request"]["qid"] == q["qid"])
+                                            .map(project)
+                                            .unwrap_or(Value::Null);
                                         // the CSV formatter may add an error entry; whatever was there before must still be there
                                         let keeps = match (want.get("error"), got.get("error")) {
                                             (Some(Value::Null), _) | (None, _) => true,
                                             (Some(w), Some(g)) => w == g,
                                             (Some(_), None) => false,
-                                        } && want["route"] == got["route"] && want["request"] == got["request"];
+                                        } && want["route"] == got["route"]
+                                            && want["request"] == got["request"];
                                         if keeps {
                                             st.pass("returned_response_keeps_its_information");
                                         } else {
-                                            let site = if want.get("error").map_or(false, |e| !e.is_null()) { "error_response" } else { "success_response" };
-                                            st.violation(&format!("{}.{}", comp, site), "returned_response_keeps_its_information", seq.len() as u64, || format!("before writing {} ; handed back {}", want, got), case);
+                                            let site = if want
+                                                .get("error")
+                                                .map_or(false, |e| !e.is_null())
+                                            {
+                                                "error_response"
+                                            } else {
+                                                "success_response"
+                                            };
+                                            st.violation(
+                                                &format!("{}.{}", comp, site),
+                                                "returned_response_keeps_its_information",
+                                                seq.len() as u64,
+                                                || {
+                                                    format!(
+                                                        "before writing {} ; handed back {}",
+                                                        want, got
+                                                    )
+                                                },
+                                                case,
+                                            );
                                         }
                                     }
                                 }
@@ -609,11 +1016,32 @@ fn histories(fx: &Fixture, tier: Tier, st: &mut Stats, only: Option<&Value>) {
                         if raw.first().copied() == Some(header.as_str()) {
                             st.pass("single_header_first");
                         } else {
-                            st.violation(&comp, "single_header_first", seq.len() as u64, || format!("first line {:?}", raw.first()), case);
+                            st.violation(
+                                &comp,
+                                "single_header_first",
+                                seq.len() as u64,
+                                || format!("first line {:?}", raw.first()),
+                                case,
+                            );
                         }
-                        let strip = |r: &Value| Value::Object(r.as_object().map(|m| m.iter().filter(|(_, v)| !v.is_null()).map(|(k, v)| (k.clone(), v.clone())).collect()).unwrap_or_default());
-                        let mut want: Vec<String> = all_alone.iter().map(|r| ref_csv_row(format, &strip(r))).collect();
-                        let mut got: Vec<String> = raw.iter().skip(1).map(|l| l.to_string()).collect();
+                        let strip = |r: &Value| {
+                            Value::Object(
+                                r.as_object()
+                                    .map(|m| {
+                                        m.iter()
+                                            .filter(|(_, v)| !v.is_null())
+                                            .map(|(k, v)| (k.clone(), v.clone()))
+                                            .collect()
+                                    })
+                                    .unwrap_or_default(),
+                            )
+                        };
+                        let mut want: Vec<String> = all_alone
+                            .iter()
+                            .map(|r| ref_csv_row(format, &strip(r)))
+                            .collect();
+                        let mut got: Vec<String> =
+                            raw.iter().skip(1).map(|l| l.to_string()).collect();
                         if got.len() == expected_ids.len() {
                             st.pass("rows_accumulate_across_runs");
                         } else {
@@ -624,7 +1052,13 @@ fn histories(fx: &Fixture, tier: Tier, st: &mut Stats, only: Option<&Value>) {
                         if want == got {
                             st.pass("rows_follow_mapping_in_header_order");
                         } else {
-                            st.violation(&comp, "rows_follow_mapping_in_header_order", seq.len() as u64, || format!("header {:?}: rows {:?} want {:?}", header, got, want), case);
+                            st.violation(
+                                &comp,
+                                "rows_follow_mapping_in_header_order",
+                                seq.len() as u64,
+                                || format!("header {:?}: rows {:?} want {:?}", header, got, want),
+                                case,
+                            );
                         }
                     } else if format["type"] == json!("csv") {
                         let header = ref_csv_header(format);
@@ -632,27 +1066,77 @@ fn histories(fx: &Fixture, tier: Tier, st: &mut Stats, only: Option<&Value>) {
                         if n_headers == 1 && lines.first().copied() == Some(header.as_str()) {
                             st.pass("single_header_first");
                         } else {
-                            st.violation(&comp, "single_header_first", seq.len() as u64, || format!("{} header lines; first line {:?}", n_headers, lines.first()), case);
+                            st.violation(
+                                &comp,
+                                "single_header_first",
+                                seq.len() as u64,
+                                || {
+                                    format!(
+                                        "{} header lines; first line {:?}",
+                                        n_headers,
+                                        lines.first()
+                                    )
+                                },
+                                case,
+                            );
                         }
                         // rows = the mapping applied to the responses, cell by cell in header order (responses kept in memory only)
-                        if persist.starts_with("persist") && fname != &"csv_missing_path" && !fname.starts_with("csv_failing") {
-                            let mut want: Vec<String> = all_returned.iter().map(|r| ref_csv_row(format, r)).collect();
-                            let mut got: Vec<String> = lines.iter().filter(|l| **l != header).map(|l| l.to_string()).collect();
+                        if persist.starts_with("persist")
+                            && fname != &"csv_missing_path"
+                            && !fname.starts_with("csv_failing")
+                        {
+                            let mut want: Vec<String> = all_returned
+                                .iter()
+                                .map(|r| ref_csv_row(format, r))
+                                .collect();
+                            let mut got: Vec<String> = lines
+                                .iter()
+                                .filter(|l| **l != header)
+                                .map(|l| l.to_string())
+                                .collect();
                             want.sort();
                             got.sort();
                             if want == got {
                                 st.pass("rows_follow_mapping_in_header_order");
                             } else {
-                                st.violation(&comp, "rows_follow_mapping_in_header_order", seq.len() as u64, || format!("header {:?}: rows {:?} want {:?}", header, got, want), case);
+                                st.violation(
+                                    &comp,
+                                    "rows_follow_mapping_in_header_order",
+                                    seq.len() as u64,
+                                    || {
+                                        format!(
+                                            "header {:?}: rows {:?} want {:?}",
+                                            header, got, want
+                                        )
+                                    },
+                                    case,
+                                );
                             }
                         }
                         if lines.len() - n_headers.min(lines.len()) == expected_ids.len() {
                             st.pass("rows_accumulate_across_runs");
                         } else {
-                            st.violation(&comp, "rows_accumulate_across_runs", seq.len() as u64, || format!("{} rows for {} responses over {} runs", lines.len() - n_headers.min(lines.len()), expected_ids.len(), seq.len()), case);
+                            st.violation(
+                                &comp,
+                                "rows_accumulate_across_runs",
+                                seq.len() as u64,
+                                || {
+                                    format!(
+                                        "{} rows for {} responses over {} runs",
+                                        lines.len() - n_headers.min(lines.len()),
+                                        expected_ids.len(),
+                                        seq.len()
+                                    )
+                                },
+                                case,
+                            );
                         }
                     } else {
-                        let ids: Vec<String> = lines.iter().filter_map(|l| serde_json::from_str::<Value>(l).ok()).map(|v| v["request"]["qid"].as_str().unwrap_or("?").to_string()).collect();
+                        let ids: Vec<String> = lines
+                            .iter()
+                            .filter_map(|l| serde_json::from_str::<Value>(l).ok())
+                            .map(|v| v["request"]["qid"].as_str().unwrap_or("?").to_string())
+                            .collect();
                         let mut a = ids.clone();
                         a.sort();
                         let mut b = expected_ids.clone();
@@ -660,7 +1144,13 @@ fn histories(fx: &Fixture, tier: Tier, st: &mut Stats, only: Option<&Value>) {
                         if a == b && lines.len() == expected_ids.len() {
                             st.pass("rows_accumulate_across_runs");
                         } else {
-                            st.violation(&comp, "rows_accumulate_across_runs", seq.len() as u64, || format!("records {:?} want {:?}", ids, expected_ids), case);
+                            st.violation(
+                                &comp,
+                                "rows_accumulate_across_runs",
+                                seq.len() as u64,
+                                || format!("records {:?} want {:?}", ids, expected_ids),
+                                case,
+                            );
                         }
                     }
                     let _ = std::fs::remove_file(&path);
@@ -674,18 +1164,34 @@ fn histories(fx: &Fixture, tier: Tier, st: &mut Stats, only: Option<&Value>) {
         st.evaluations += 1;
         st.transitions += 1;
         let mut spec = AppSpec::simple(base_net());
-        spec.input_plugins = vec![json!({"type": "inject", "key": "weight_factor", "value": "1.0", "format": "json", "overwrite": false})];
+        spec.input_plugins = vec![
+            json!({"type": "inject", "key": "weight_factor", "value": "1.0", "format": "json", "overwrite": false}),
+        ];
         let case = || json!({"input_plugin_failure": true});
         match spec.build(&fx.scratch.path.join("app_inject")) {
             Err(e) => st.violation("harness", "app_build", 0, || e.clone(), case),
             Ok(app2) => {
                 // every batch of length 1..3 over {answered query, query failing in the input plugin} x persistence x format:
                 // in particular batches in which nothing reaches the search
-                let mk = |fails: bool, id: &str| if fails { tagq(&json!({"origin_vertex": 0, "destination_vertex": 4, "weight_factor": 2.0}), id) } else { tagq(&json!({"origin_vertex": 0, "destination_vertex": 4}), id) };
+                let mk = |fails: bool, id: &str| {
+                    if fails {
+                        tagq(
+                            &json!({"origin_vertex": 0, "destination_vertex": 4, "weight_factor": 2.0}),
+                            id,
+                        )
+                    } else {
+                        tagq(&json!({"origin_vertex": 0, "destination_vertex": 4}), id)
+                    }
+                };
                 for len in 1..=3usize {
                     for code in 0..(1usize << len) {
-                        for persist in ["persist_response_in_memory", "discard_response_from_memory"] {
-                            for (fname, format) in [("jsonl", json!({"type": "json", "newline_delimited": true})), ("csv", csv_format())] {
+                        for persist in
+                            ["persist_response_in_memory", "discard_response_from_memory"]
+                        {
+                            for (fname, format) in [
+                                ("jsonl", json!({"type": "json", "newline_delimited": true})),
+                                ("csv", csv_format()),
+                            ] {
                                 st.states += 1;
                                 st.evaluations += 1;
                                 st.transitions += 1;
@@ -693,14 +1199,27 @@ fn histories(fx: &Fixture, tier: Tier, st: &mut Stats, only: Option<&Value>) {
                                 let path = fx.scratch.path.join("plugin_failure.txt");
                                 let _ = std::fs::remove_file(&path);
                                 let cfg = json!({"response_persistence_policy": persist, "response_output_policy": {"type": "file", "filename": path.to_str().unwrap(), "format": format}});
-                                let qs: Vec<Value> = (0..len).map(|i| mk(code >> i & 1 == 1, &format!("q{}", i))).collect();
-                                let pattern: String = (0..len).map(|i| if code >> i & 1 == 1 { 'F' } else { 'A' }).collect();
+                                let qs: Vec<Value> = (0..len)
+                                    .map(|i| mk(code >> i & 1 == 1, &format!("q{}", i)))
+                                    .collect();
+                                let pattern: String = (0..len)
+                                    .map(|i| if code >> i & 1 == 1 { 'F' } else { 'A' })
+                                    .collect();
                                 let case = || json!({"input_plugin_failure": true, "batch": pattern, "persistence": persist, "format": fname});
-                                let comp = format!("append_histories.input_plugin_failure.{}", if code == (1 << len) - 1 { "nothing_reaches_the_search" } else { "mixed_batch" });
+                                let comp = format!(
+                                    "append_histories.input_plugin_failure.{}",
+                                    if code == (1 << len) - 1 {
+                                        "nothing_reaches_the_search"
+                                    } else {
+                                        "mixed_batch"
+                                    }
+                                );
                                 match guarded(|| app2.run(qs.clone(), Some(&cfg))) {
                                     Ok(Ok(resp)) => {
-                                        let text = std::fs::read_to_string(&path).unwrap_or_default();
-                                        let n = text.split('\n').filter(|l| !l.is_empty()).count() - (fname == "csv") as usize;
+                                        let text =
+                                            std::fs::read_to_string(&path).unwrap_or_default();
+                                        let n = text.split('\n').filter(|l| !l.is_empty()).count()
+                                            - (fname == "csv") as usize;
                                         let keep = persist.starts_with("persist");
                                         if n == len && (!keep || resp.len() == len) {
                                             st.pass("input_plugin_failures_are_written");
@@ -708,7 +1227,13 @@ fn histories(fx: &Fixture, tier: Tier, st: &mut Stats, only: Option<&Value>) {
                                             st.violation(&comp, "one_record_per_response", len as u64, || format!("batch {} ({}): {} responses returned, {} records in the file: {:?}", pattern, persist, resp.len(), n, text), case);
                                         }
                                     }
-                                    other => st.violation(&comp, "run_succeeds", len as u64, || format!("{:?}", other), case),
+                                    other => st.violation(
+                                        &comp,
+                                        "run_succeeds",
+                                        len as u64,
+                                        || format!("{:?}", other),
+                                        case,
+                                    ),
                                 }
                             }
                         }
@@ -719,12 +1244,15 @@ fn histories(fx: &Fixture, tier: Tier, st: &mut Stats, only: Option<&Value>) {
     }
 }
 
-
 /// every leaf of `a` is in `b` under the same path with the same value
 fn leaves_kept(a: &Value, b: &Value) -> bool {
     match a {
-        Value::Object(o) => o.iter().all(|(k, v)| b.get(k).map_or(false, |w| leaves_kept(v, w))),
-        Value::Array(x) => b.as_array().map_or(false, |y| x.len() <= y.len() && x.iter().zip(y.iter()).all(|(v, w)| leaves_kept(v, w))),
+        Value::Object(o) => o
+            .iter()
+            .all(|(k, v)| b.get(k).map_or(false, |w| leaves_kept(v, w))),
+        Value::Array(x) => b.as_array().map_or(false, |y| {
+            x.len() <= y.len() && x.iter().zip(y.iter()).all(|(v, w)| leaves_kept(v, w))
+        }),
         other => other == b,
     }
 }
@@ -735,9 +1263,18 @@ fn leaves_kept(a: &Value, b: &Value) -> bool {
 fn combined_sinks(fx: &Fixture, st: &mut Stats) {
     let qa = query_alphabet();
     let sinks: Vec<(&str, Value)> = vec![
-        ("csv_alpha_fails", json!({"type": "csv", "sorted": false, "mapping": {"qid": "request.qid", "alpha": "does.not.exist"}})),
-        ("csv_beta_fails", json!({"type": "csv", "sorted": true, "mapping": {"qid": "request.qid", "beta": "route.no_such_field"}})),
-        ("csv_clean", json!({"type": "csv", "sorted": false, "mapping": {"qid": "request.qid", "d": {"optional": "route.traversal_summary.distance"}}})),
+        (
+            "csv_alpha_fails",
+            json!({"type": "csv", "sorted": false, "mapping": {"qid": "request.qid", "alpha": "does.not.exist"}}),
+        ),
+        (
+            "csv_beta_fails",
+            json!({"type": "csv", "sorted": true, "mapping": {"qid": "request.qid", "beta": "route.no_such_field"}}),
+        ),
+        (
+            "csv_clean",
+            json!({"type": "csv", "sorted": false, "mapping": {"qid": "request.qid", "d": {"optional": "route.traversal_summary.distance"}}}),
+        ),
         ("jsonl", json!({"type": "json", "newline_delimited": true})),
     ];
     let mut lists: Vec<Vec<usize>> = vec![];
@@ -763,9 +1300,17 @@ fn combined_sinks(fx: &Fixture, st: &mut Stats) {
                 json!({"type": "file", "filename": path.to_str().unwrap(), "format": sinks[*s].1, "file_flush_rate": 1})
             })
             .collect();
-        let pol = if policies.len() == 1 { policies[0].clone() } else { json!({"type": "combined", "policies": policies}) };
+        let pol = if policies.len() == 1 {
+            policies[0].clone()
+        } else {
+            json!({"type": "combined", "policies": policies})
+        };
         let cfg = json!({"parallelism": 1, "response_persistence_policy": "persist_response_in_memory", "response_output_policy": pol});
-        match guarded(|| fx.app.run(vec![q.clone()], Some(&cfg)).map_err(|e| e.to_string())) {
+        match guarded(|| {
+            fx.app
+                .run(vec![q.clone()], Some(&cfg))
+                .map_err(|e| e.to_string())
+        }) {
             Err(p) => Err(format!("panic: {}", p)),
             Ok(Err(e)) => Err(e),
             Ok(Ok(r)) => r.first().cloned().ok_or_else(|| "no response".to_string()),
@@ -796,9 +1341,19 @@ fn combined_sinks(fx: &Fixture, st: &mut Stats) {
                     Ok(r) => r,
                     Err(_) => continue,
                 };
-                let (pe, we) = (part.get("error").cloned().unwrap_or(Value::Null), whole.get("error").cloned().unwrap_or(Value::Null));
-                let (pc, wc) = (part.get("csv_error").cloned().unwrap_or(Value::Null), whole.get("csv_error").cloned().unwrap_or(Value::Null));
-                if !(pe.is_null() || leaves_kept(&pe, &we)) || !(pc.is_null() || leaves_kept(&pc, &wc)) || part.get("route") != whole.get("route") || part.get("request") != whole.get("request") {
+                let (pe, we) = (
+                    part.get("error").cloned().unwrap_or(Value::Null),
+                    whole.get("error").cloned().unwrap_or(Value::Null),
+                );
+                let (pc, wc) = (
+                    part.get("csv_error").cloned().unwrap_or(Value::Null),
+                    whole.get("csv_error").cloned().unwrap_or(Value::Null),
+                );
+                if !(pe.is_null() || leaves_kept(&pe, &we))
+                    || !(pc.is_null() || leaves_kept(&pc, &wc))
+                    || part.get("route") != whole.get("route")
+                    || part.get("request") != whole.get("request")
+                {
                     ok = false;
                     st.violation(&comp, "returned_response_keeps_its_information", list.len() as u64, || format!("after the first {} sink(s) the response holds error {} csv_error {}; after all {} it holds error {} csv_error {}", k, pe, pc, list.len(), we, wc), case);
                     break;
@@ -816,7 +1371,10 @@ pub fn run(tier: Tier) -> i32 {
     let fx = match fixture() {
         Ok(f) => f,
         Err(e) => {
-            println!("MACHINERY-ERROR cannot build the application fixture: {}", e);
+            println!(
+                "MACHINERY-ERROR cannot build the application fixture: {}",
+                e
+            );
             return 2;
         }
     };
@@ -851,10 +1409,20 @@ pub fn run(tier: Tier) -> i32 {
 
 /// runs `n` scenario explorations of property `id` in worker processes (`vharness --worker <id> <tier> scenarios`);
 /// the workers report their scenario's bound, schedule count and distinct outcomes in a `BOUND {json}` note
-pub fn explore_in_workers(id: &str, tier: Tier, n: u64, bounds: &mut serde_json::Map<String, Value>) -> Result<Stats, String> {
+pub fn explore_in_workers(
+    id: &str,
+    tier: Tier,
+    n: u64,
+    bounds: &mut serde_json::Map<String, Value>,
+) -> Result<Stats, String> {
     use crate::engine::sandbox::{run_cases, SandboxCfg};
     let cfg = SandboxCfg {
-        worker_args: vec!["--worker".into(), id.into(), tier.as_str().into(), "scenarios".into()],
+        worker_args: vec![
+            "--worker".into(),
+            id.into(),
+            tier.as_str().into(),
+            "scenarios".into(),
+        ],
         n_workers: 16,
         case_timeout: std::time::Duration::from_secs(tier.pick(900, 6 * 3600)),
         block: 1,
@@ -888,7 +1456,14 @@ pub fn explore_in_workers(id: &str, tier: Tier, n: u64, bounds: &mut serde_json:
 }
 
 /// explores one scenario and leaves its coverage in a BOUND note (worker side)
-pub fn explore_and_note(fx: &Fixture, sc: &Scenario, bound: Option<usize>, cap: u64, property: &str, st: &mut Stats) {
+pub fn explore_and_note(
+    fx: &Fixture,
+    sc: &Scenario,
+    bound: Option<usize>,
+    cap: u64,
+    property: &str,
+    st: &mut Stats,
+) {
     let t0 = std::time::Instant::now();
     match explore_scenario(fx, sc, bound, cap, property, st) {
         Ok((orders, schedules)) => {
@@ -897,7 +1472,18 @@ pub fn explore_and_note(fx: &Fixture, sc: &Scenario, bound: Option<usize>, cap: 
                 json!({"scenario": sc.name, "preemption_bound": bound.map(|b| json!(b)).unwrap_or(json!("unbounded (complete)")), "schedules": schedules, "distinct_file_orders": orders, "wall_s": (t0.elapsed().as_secs_f64() * 10.0).round() / 10.0})
             ));
             if orders < 2 {
-                st.violation("harness", "vacuous_exploration", 0, || format!("scenario {} produced a single file order: nothing collided", sc.name), || json!({"scenario": sc.name}));
+                st.violation(
+                    "harness",
+                    "vacuous_exploration",
+                    0,
+                    || {
+                        format!(
+                            "scenario {} produced a single file order: nothing collided",
+                            sc.name
+                        )
+                    },
+                    || json!({"scenario": sc.name}),
+                );
             }
         }
         Err(e) => {
@@ -907,7 +1493,11 @@ pub fn explore_and_note(fx: &Fixture, sc: &Scenario, bound: Option<usize>, cap: 
 }
 
 pub fn worker(args: &[String]) -> i32 {
-    let tier = if args.first().map(|s| s.as_str()) == Some("thorough") { Tier::Thorough } else { Tier::Quick };
+    let tier = if args.first().map(|s| s.as_str()) == Some("thorough") {
+        Tier::Thorough
+    } else {
+        Tier::Quick
+    };
     let fx = match fixture() {
         Ok(f) => f,
         Err(e) => {
@@ -931,23 +1521,45 @@ pub fn replay(case: &Value) -> i32 {
         }
     };
     let name = case["scenario"].as_str().unwrap_or("");
-    let sc = match scenarios(Tier::Thorough).into_iter().map(|s| s.0).find(|s| s.name == name) {
+    let sc = match scenarios(Tier::Thorough)
+        .into_iter()
+        .map(|s| s.0)
+        .find(|s| s.name == name)
+    {
         Some(s) => s,
         None => {
             // an append history (or an input-plugin-failure batch, which is part of the same pass): run it again without the tier
             let mut st = Stats::new();
-            let c = if case.get("case").is_some() { &case["case"] } else { case };
+            let c = if case.get("case").is_some() {
+                &case["case"]
+            } else {
+                case
+            };
             if c.get("combined_sinks").is_some() {
                 combined_sinks(&fx, &mut st);
             } else if c.get("runs").is_some() {
                 histories(&fx, Tier::Thorough, &mut st, Some(c));
             } else {
-                histories(&fx, Tier::Thorough, &mut st, Some(&json!({"format": "none"})));
+                histories(
+                    &fx,
+                    Tier::Thorough,
+                    &mut st,
+                    Some(&json!({"format": "none"})),
+                );
             }
             for (k, g) in st.violations.iter() {
-                println!("REPLAY-VIOLATION {} ({} cases) {}", k, g.count, g.detail.chars().take(500).collect::<String>());
+                println!(
+                    "REPLAY-VIOLATION {} ({} cases) {}",
+                    k,
+                    g.count,
+                    g.detail.chars().take(500).collect::<String>()
+                );
             }
-            println!("replay: {} violated clauses over {} histories", st.violations.len(), st.evaluations);
+            println!(
+                "replay: {} violated clauses over {} histories",
+                st.violations.len(),
+                st.evaluations
+            );
             return if st.violations.is_empty() { 0 } else { 1 };
         }
     };
@@ -960,7 +1572,16 @@ pub fn replay(case: &Value) -> i32 {
         match run_scenario(&ex, &fx, &sc, &prefix, None, false) {
             Ok(o) => {
                 let (bad, order) = judge(&sc, &al, &o);
-                println!("round {}: file order {} ; labels {:?}", round, order, o.exec.points.iter().map(|p| p.label.clone()).collect::<Vec<_>>());
+                println!(
+                    "round {}: file order {} ; labels {:?}",
+                    round,
+                    order,
+                    o.exec
+                        .points
+                        .iter()
+                        .map(|p| p.label.clone())
+                        .collect::<Vec<_>>()
+                );
                 for (c, d) in bad.iter() {
                     println!("REPLAY-VIOLATION {} {}", c, d);
                 }
@@ -976,5 +1597,9 @@ pub fn replay(case: &Value) -> i32 {
         println!("MACHINERY-ERROR the same schedule gave different observations");
         return 2;
     }
-    if verdicts[0].0.is_empty() { 0 } else { 1 }
+    if verdicts[0].0.is_empty() {
+        0
+    } else {
+        1
+    }
 }
